@@ -637,6 +637,7 @@ Error RALocalAllocator::alloc_instruction(InstNode* node) noexcept {
 
             if (rm_size <= work_reg->virt_reg()->virt_size()) {
               Operand& op = node->operands()[op_index];
+              ASMJIT_PROPAGATE(_pass.ensure_stack_slot(work_reg));
               op = _pass.work_reg_as_mem(work_reg);
 
               // NOTE: We cannot use `x86::Mem::set_size()` from here, so let's manipulate the signature directly.
